@@ -144,6 +144,12 @@ def menu(M, seen):
                 add({"op": "grouped_modify", "by": names[0], "name": fresh(M, "gm"), "extra": 1})
         add({"op": "rbind_self"})
         add({"op": "rbind_partner"})
+        # the very same object as receiver and argument
+        add({"op": "cbind_self"})
+        add({"op": "update_self"})
+        if ok_key(M.get(names[0])):
+            add({"op": "left_join_self"})
+            add({"op": "anti_join_self"})
         if n >= 1:
             add({"op": "cbind", "rows": n})
             add({"op": "cbind", "rows": 1})
@@ -354,6 +360,14 @@ def apply_real(d, M, op):
         return g.modify(**{op["name"]: (lambda x: list(range(x.nrow + extra)))}), []
     if o == "rbind_self":
         return d.rbind(d), []
+    if o == "cbind_self":
+        return d.cbind(d), []
+    if o == "update_self":
+        return d.update(d), []
+    if o == "left_join_self":
+        return d.left_join(d, M.names[0]), []
+    if o == "anti_join_self":
+        return d.anti_join(d, M.names[0]), []
     if o == "rbind_partner":
         p, _ = partner(M, d)
         return d.rbind(p), [p]
@@ -461,6 +475,14 @@ def apply_model(M, op):
         return None, {"adopt": True}  # the values are C04's subject; here: the frame stays rectangular
     if o == "rbind_self":
         return M.rbind([M]), flags
+    if o == "cbind_self":
+        return M.cbind(M), flags
+    if o == "update_self":
+        return M.update(M), {"unordered": True}
+    if o == "left_join_self":
+        return M.join("left_join", M, [(M.names[0], M.names[0])]), flags
+    if o == "anti_join_self":
+        return M.join("anti_join", M, [(M.names[0], M.names[0])]), flags
     if o == "rbind_partner":
         _, P = partner(M)
         return M.rbind([P]), flags
